@@ -348,6 +348,10 @@ impl Monitors {
                 }
             }
             ToClientMessage::CancelJobResponse(rs) => {
+                // "once the server has answered a cancel request for a job": at that moment no
+                // task of the job is left unfinished (the request is handled within this poll
+                // of the connection, nothing else is in between)
+                let views = job_views(world);
                 for (job_id, r) in rs {
                     if let CancelJobResponse::Canceled(ids, _already) = r {
                         if ids.is_empty() {
@@ -355,7 +359,28 @@ impl Monitors {
                         } else {
                             obs.class("cancel-effective");
                         }
-                        let _ = job_id;
+                        // (tasks that already existed when the request was sent: a submit
+                        //  of another client may be handled while the cancel waits for the journal)
+                        if let Some(v) = views.get(&job_id) {
+                            let left: Vec<u32> = p
+                                .unfinished_at_send
+                                .get(&job_id.as_num())
+                                .map(|ids| {
+                                    ids.iter()
+                                        .filter(|id| v.tasks.get(*id).is_some_and(|k| !k.terminal()))
+                                        .copied()
+                                        .collect()
+                                })
+                                .unwrap_or_default();
+                            if !left.is_empty() {
+                                obs.alarm(
+                                    "C08",
+                                    step,
+                                    "cancel of a job was answered although tasks of the job are still unfinished",
+                                    format!("job {job_id}: unfinished tasks {left:?}"),
+                                );
+                            }
+                        }
                     }
                 }
             }
